@@ -132,6 +132,30 @@ namespace Bubus
 @[simp] theorem setAct_nx (w : World) (p : Proc) (x : Option Act) : (w.setAct p x).nx = w.nx := rfl
 @[simp] theorem setLock_nx (w : World) (l : Option BId) : (w.setLock l).nx = w.nx := rfl
 
+@[simp] theorem setStack_stack (w : World) (l : List IId) : (w.setStack l).stack = l := rfl
+@[simp] theorem setStack_bus (w : World) (l : List IId) : (w.setStack l).bus = w.bus := rfl
+@[simp] theorem setStack_ev (w : World) (l : List IId) : (w.setStack l).ev = w.ev := rfl
+@[simp] theorem setStack_inst (w : World) (l : List IId) : (w.setStack l).inst = w.inst := rfl
+@[simp] theorem setStack_act (w : World) (l : List IId) : (w.setStack l).act = w.act := rfl
+@[simp] theorem setStack_lock (w : World) (l : List IId) : (w.setStack l).lock = w.lock := rfl
+@[simp] theorem setStack_nb (w : World) (l : List IId) : (w.setStack l).nb = w.nb := rfl
+@[simp] theorem setStack_ne (w : World) (l : List IId) : (w.setStack l).ne = w.ne := rfl
+@[simp] theorem setStack_ni (w : World) (l : List IId) : (w.setStack l).ni = w.ni := rfl
+@[simp] theorem setStack_now (w : World) (l : List IId) : (w.setStack l).now = w.now := rfl
+@[simp] theorem setStack_cfg (w : World) (l : List IId) : (w.setStack l).cfg = w.cfg := rfl
+@[simp] theorem setStack_waiter (w : World) (l : List IId) : (w.setStack l).waiter = w.waiter := rfl
+@[simp] theorem setStack_nx (w : World) (l : List IId) : (w.setStack l).nx = w.nx := rfl
+@[simp] theorem setBus_stack (w : World) (b : BId) (x : Bus) : (w.setBus b x).stack = w.stack := rfl
+@[simp] theorem setEv_stack (w : World) (e : EId) (x : Ev) : (w.setEv e x).stack = w.stack := rfl
+@[simp] theorem setInst_stack (w : World) (i : IId) (x : Inst) : (w.setInst i x).stack = w.stack := rfl
+@[simp] theorem setAct_stack (w : World) (p : Proc) (x : Option Act) : (w.setAct p x).stack = w.stack := rfl
+@[simp] theorem setLock_stack (w : World) (l : Option BId) : (w.setLock l).stack = w.stack := rfl
+@[simp] theorem setNow_stack (w : World) (t : Nat) : (w.setNow t).stack = w.stack := rfl
+@[simp] theorem setNb_stack (w : World) (n : Nat) : (w.setNb n).stack = w.stack := rfl
+@[simp] theorem setNe_stack (w : World) (n : Nat) : (w.setNe n).stack = w.stack := rfl
+@[simp] theorem setNi_stack (w : World) (n : Nat) : (w.setNi n).stack = w.stack := rfl
+@[simp] theorem setWaiter_stack (w : World) (x : Nat) (s : WSt) : (w.setWaiter x s).stack = w.stack := rfl
+
 /-- the part of the world that is not about blocked external tasks -/
 structure Core where
   cfg : Config
@@ -144,9 +168,11 @@ structure Core where
   ne : Nat
   ni : Nat
   now : Nat
+  stack : List IId
 
 def World.core (w : World) : Core :=
-  { cfg := w.cfg, bus := w.bus, ev := w.ev, inst := w.inst, act := w.act, lock := w.lock, nb := w.nb, ne := w.ne, ni := w.ni, now := w.now }
+  { cfg := w.cfg, bus := w.bus, ev := w.ev, inst := w.inst, act := w.act, lock := w.lock, nb := w.nb, ne := w.ne, ni := w.ni,
+    now := w.now, stack := w.stack }
 
 @[simp] theorem setWaiter_core (w : World) (x : Nat) (s : WSt) : (w.setWaiter x s).core = w.core := rfl
 
@@ -171,6 +197,7 @@ theorem wake_core (w : World) : (wake w).core = w.core := by
 @[simp] theorem wake_ni (w : World) : (wake w).ni = w.ni := congrArg Core.ni (wake_core w)
 @[simp] theorem wake_now (w : World) : (wake w).now = w.now := congrArg Core.now (wake_core w)
 @[simp] theorem wake_cfg (w : World) : (wake w).cfg = w.cfg := congrArg Core.cfg (wake_core w)
+@[simp] theorem wake_stack (w : World) : (wake w).stack = w.stack := congrArg Core.stack (wake_core w)
 
 /-- unfolding of the `mod…` helpers into setters -/
 @[simp] theorem modBus_eq (w : World) (b : BId) (f : Bus → Bus) : w.modBus b f = w.setBus b (f (w.bus b)) := rfl
